@@ -47,10 +47,10 @@ CONFIGS = {
     "MC_Bind": dict(CfgSet="BindCfgs", Binders='{"A", "B"}', MaxBinds=2, MaxCtr=3, MaxOpens=0, Ids="{1, 2}", MuxDroppers='{"B"}'),
     # C13: the acceptor bridges its stream to a scripted local side; every environment at every poll
     "MC_Bridge_q": dict(CfgSet="TinyCfg", MaxWrites=1, Bridgers='{"B"}', Closers='{"A"}', MaxHandles=1, MaxCtr=1),
-    "MC_Bridge": dict(CfgSet="CloseCfgs", MaxWrites=2, Bridgers='{"A", "B"}', Closers='{"A"}', MaxHandles=1, MaxCtr=1),
+    "MC_Bridge": dict(CfgSet="CloseCfgs", MaxWrites=2, Bridgers='{"B"}', Closers='{"A"}', MaxHandles=1, MaxCtr=1),
     # C10: adversary frames towards A while a well-behaved stream runs
     "MC_Adv_q": dict(CfgSet="TinyCfg", MaxWrites=1, AdvMsgs="AdvSet", MaxAdv=2, MaxHandles=2, MaxCtr=1),
-    "MC_Adv": dict(CfgSet="TinyCfg", MaxWrites=1, AdvMsgs="AdvSet", MaxAdv=3, MaxHandles=2, MaxCtr=1, Closers='{"A"}'),
+    "MC_Adv": dict(CfgSet="TinyCfg", MaxWrites=1, AdvMsgs="AdvSet", MaxAdv=2, MaxHandles=2, MaxCtr=1, Closers='{"A"}'),
 }
 
 
